@@ -200,7 +200,7 @@ def gen_can_desc(rng, mode):
                                 rel[muxed[0]] = mux[0]
                                 blocks.append(f'    signal {muxed[0]} {{ mux_count: {rng.randint(1, 4)}, mux_signal: "{mux[0]}", }},')
                                 break
-                alias = f"as {name}x{k}" if k else ""
+                alias = f"as {name}x{k}" if (k or rng.random() < 0.3) else ""  # also structs bound under an alias only
                 bus = "" if rng.random() < 0.5 else f'    bus: "{rng.choice(["b1", "b2", "b3"])}",\n'
                 dev = "" if rng.random() < 0.6 else f'    device: "{rng.choice(["ecu", "bms"])}",\n'
                 extra.append(f"impl can for {name} {alias} {{\n    id: {len(extra) + 1},\n{bus}{dev}" + "\n".join(blocks) + "\n}")
@@ -370,6 +370,9 @@ def run(prop, tier, replay=None):
         check_codec_twins(rep, rng, tier)
         from . import canc
         canc.run_core(rep, "C15", tier, rng)
+        # the C++ back end: permuted twins must give the same bytes, equal to the canonical ones, and decode them back
+        from . import cpp
+        cpp.run_core(rep, "C15", tier, rng)
     if prop == "C14":
         check_c_command(rep, rng, tier, descs, cases, mres)
     # ---- C05: frames packed per the layout decode through the DBC (cantools as second reader)
